@@ -10,6 +10,9 @@ META = {
         "lseek_copy: lseek(SEEK_DATA/SEEK_HOLE) answers as lseek(2) documents from a list of <= 2 data segments; copy_file_chunk cut "
         "(harness copy_chunk). populate_entry: scandir delivers one entry, lstat its symbolic stat; creators, set_inode_extra, "
         "set_inode_xattr, path_append cut to recording stubs (harnesses mknod, inode_extra, copy_chunk cover the first three)",
+        "rdump_symlink: symlink inodes well-formed for their storage class (fast / slow / inline data), i_size_high 0, target without NUL; "
+        "ext2fs_file_open/read/close deliver the true target (one piece, or split at a compile-time position); malloc is a fixed "
+        "82-byte buffer with arbitrary content in the solver run (symbolic-size allocation needs > 9 GB), libc's in the replay",
         "host S_IF*/S_I* constants equal the LINUX_S_* values (asserted in file_type for this host), little-endian host",
         "copy_file_chunk: block size 4 bytes, host file <= 12 bytes (fs->blocksize is a run-time field; COPY_FILE_BUFLEN "
         "stays 65536, reached through the read count only)",
@@ -21,7 +24,8 @@ META = {
         "try_fiemap_copy (FIEMAP enumeration), more than 2 data segments in try_lseek_copy, copy_file's fallback order, the i_size set "
         "by do_write_internal; inline-data files",
         "the real ext2fs_file_write / block allocation behind the copy (C09), directory entries (C10)",
-        "rdump_inode / rdump_dirent recursion, dump_file's read loop, rdump_symlink; only fix_perms is covered of extraction",
+        "rdump_dirent (name copy, inode read) and the recursion over real directories, dump_file's read/write loop, do_rdump/do_dump "
+        "argument handling; symlink targets longer than 80 bytes; ext2fs_file_read itself (inline-data and block-mapped reading: C09)",
         "consistency (e2fsck clean) and byte-for-byte reproducibility of the produced image",
         "nanoseconds (never transferred by set_inode_extra: always zero) and i_crtime of populated files",
     ],
@@ -79,6 +83,22 @@ HARNESSES = [
          backends=["default", "kissat"],
          bound="one directory entry with symbolic st_mode (7 handled types) / st_nlink / st_dev / st_ino / st_rdev; hard-link "
                "table of 0..2 symbolic records; parent, root and inode numbers symbolic"),
+    dict(name="rdump_symlink", src="rdump.c",
+         funcs=["rdump_symlink", "ext2fs_is_fast_symlink"],
+         extra_src=["lib/ext2fs/symlink.c", "lib/ext2fs/valid_blk.c", "lib/ext2fs/blknum.c"],
+         configs=[{"KERNEL": 1, "CLASS": c} for c in (1, 2, 3, 4)] + [{"KERNEL": 1, "CLASS": 2, "FAULTS": None}, {"KERNEL": 1, "CLASS": 3, "FAULTS": None},
+                  {"KERNEL": 1, "CLASS": 2, "PARTIAL": 7}, {"KERNEL": 1, "CLASS": 3, "PARTIAL": 59}],
+         unwind=4, unwindset=["main.%d:129" % i for i in range(8)] + ["strcpy.0:130", "malloc.0:84", "symlink.0:82", "symlink.1:83",
+                                                                       "ext2fs_file_read.0:81", "ext2fs_file_read.1:81", "rdump_symlink.0:4"],
+         backends=["default", "kissat"],
+         bound="symlink inode: all 128 bytes symbolic under the class's well-formedness (fast / slow / inline data / short inline), "
+               "target of 1..59 resp. 60..80 non-NUL bytes, with or without xattr block, extent or block mapped; reads in one or "
+               "two pieces; FAULTS: open fails / k-th read fails"),
+    dict(name="rdump_inode", src="rdump.c", funcs=["rdump_inode"],
+         cut_statics={"debugfs/dump.c": ["rdump_symlink", "dump_file", "fix_perms"]},
+         configs=[{"KERNEL": 2, "NAMEKIND": k} for k in (0, 1, 2, 3)],
+         unwind=4, unwindset=["main.%d:129" % i for i in range(8)] + ["strcmp.0:4", "strlen.0:5"],
+         backends=["default", "kissat"], bound="every 128-byte inode (all 2^16 i_mode values); entry name 'f', '.', '..' or '' (the dump root)"),
     dict(name="fix_perms", src="fix_perms.c", funcs=["fix_perms", "mode_xlate"],
          unwind=4, unwindset=["main.0:129", "main.1:129", "main.2:129", "mode_xlate.0:11"],
          backends=["default", "kissat"], bound="every 128-byte inode, descriptor open or not"),
